@@ -340,6 +340,9 @@ class Ctx:
                 if k['key'] not in [h['key'] for h in self.known_hits]:
                     self.known_hits.append(k)
                 return False
+        self.nviol = getattr(self, 'nviol', 0) + 1
+        if len(self.violations) >= 5:       # keep the output readable; evidence carries the count
+            return True
         os.makedirs(os.path.join(REPLAYS, self.pid), exist_ok=True)
         p = os.path.join(REPLAYS, self.pid, 'replay-%d-%d.json' % (self.seed, len(self.violations)))
         obj = {'property': self.pid, 'seed': self.seed, 'tier': self.tier, 'what': text, 'concrete_failing_input': concrete}
@@ -371,7 +374,7 @@ class Ctx:
             self.violations.append((p, 'broken: ' + self.broken[0][:200], False))
         ev = {'property_id': self.pid, 'tier': self.tier, 'seed': self.seed, 'level': self.level, 'coverage': self.cov,
               'assumptions': list(assumptions) + ['Print Assumptions: ' + a for a in self.assumptions],
-              'wall_s': round(time.time() - self.t0, 2), 'violations': len(self.violations),
+              'wall_s': round(time.time() - self.t0, 2), 'violations': max(len(self.violations), getattr(self, 'nviol', 0)),
               'known_findings_reproduced': [k['key'] for k in self.known_hits]}
         if not self.cov['samples']:
             self.cov['samples'] = ['(no case reached)']
